@@ -45,7 +45,8 @@ func run(t *testing.T, sp spec) {
 			var o evid.Outcome
 			for i := 0; i < reps; i++ {
 				tr := Execute(t, s, sp.leak)
-				o = evid.Outcome{Classes: Classes(s, tr), Summary: summary(s, tr)}
+				o = evid.Outcome{Classes: Classes(s, tr), Summary: summary(s, tr),
+					Counters: map[string]int{"output_slices": len(tr.Outs), "timeout_cut_slices": ShortSlices(s, tr), "elements_written": len(tr.WStart)}}
 				if sp.skip != nil {
 					if r := sp.skip(s, tr); r != "" {
 						o.Skip = r
